@@ -125,7 +125,8 @@ func DualStackRuns(c *run.Ctx, s *kit.Summary, r *kit.Rng) {
 			return d.DialContext(ctx, network, a)
 		}
 		// KeepAlive(false) first: it installs the plain dialer, which the later options then wrap
-		atk := vegeta.NewAttacker(vegeta.KeepAlive(false), vegeta.VerifBaseDial(base), vegeta.DNSCaching(0),
+		ttl := []time.Duration{0, 0, 30 * time.Millisecond}[i%3] // with a positive ttl a refresh goroutine belongs to the attack too
+		atk := vegeta.NewAttacker(vegeta.KeepAlive(false), vegeta.VerifBaseDial(base), vegeta.DNSCaching(ttl),
 			vegeta.Workers(uint64(1+r.Pick(3))), vegeta.MaxWorkers(4))
 		tr := vegeta.NewStaticTargeter(vegeta.Target{Method: "GET", URL: "http://dual.verif.test:" + port + "/"})
 		var got []*vegeta.Result
@@ -134,7 +135,8 @@ func DualStackRuns(c *run.Ctx, s *kit.Summary, r *kit.Rng) {
 		}
 		s.Case(fmt.Sprint("dualstack:", i, hang, hits), true)
 		s.Count("dualstack:runs hang=" + hang)
-		in := map[string]interface{}{"scenario": "dual-stack name, DNSCaching(0), KeepAlive(false)", "hanging_family": hang, "hits": hits}
+		in := map[string]interface{}{"scenario": "dual-stack name, DNSCaching(ttl), KeepAlive(false)", "dns_ttl_ns": int64(ttl), "hanging_family": hang, "hits": hits}
+		s.Count(fmt.Sprintf("dualstack:dns_ttl_positive=%v", ttl > 0))
 		seen := map[uint64]bool{}
 		okc := 0
 		for _, g := range got {
